@@ -50,7 +50,7 @@ Theorem c11_toplevel_symlink_legacy_refuted :
   let '(s', _) := delete_layer false false spec_sbom_suffixes [[108]] [121] f4_fs in
   pget [[111]; [102]] s' = None /\ pget [[111]] s' = Some (Dir 511) /\
   (let '(s2, r2) := delete_layer true true spec_sbom_suffixes [[108]] [121] f4_fs in
-   pget [[111]; [102]] s2 = Some (File 420 [1]) /\ pget [[111]] s2 = Some (Dir 365) /\
+   pget [[111]; [102]] s2 = Some (File 420 (Raw [1])) /\ pget [[111]] s2 = Some (Dir 365) /\
    pget [[108]; [121]] s2 = None /\ r2 = Ok tt).
 Proof. exact toplevel_symlink_legacy_refuted. Qed.
 Print Assumptions c11_toplevel_symlink_legacy_refuted.
@@ -60,10 +60,10 @@ Print Assumptions c11_toplevel_symlink_legacy_refuted.
 Example c11_nonvacuous :
   let s := [ ([], Dir 493); ([[108]], Dir 493); ([[108]; [120]], Dir 365);
              ([[108]; [120]; [100]], Dir 0); ([[108]; [120]; [107]], Link [46; 46; 47; 121]);
-             ([[108]; [121]], Dir 493); ([[108]; [121]; [102]], File 420 [7]);
-             ([[108]; [120; 46; 116; 111; 109; 108]], File 420 []) ] in
+             ([[108]; [121]], Dir 493); ([[108]; [121]; [102]], File 420 (Raw [7]));
+             ([[108]; [120; 46; 116; 111; 109; 108]], File 420 (Raw [])) ] in
   valid_path [[108]] /\ valid_name [120] = true /\
   fst (delete_layer true true spec_sbom_suffixes [[108]] [120] s) =
-    [ ([], Dir 493); ([[108]], Dir 493); ([[108]; [121]], Dir 493); ([[108]; [121]; [102]], File 420 [7]) ] /\
+    [ ([], Dir 493); ([[108]], Dir 493); ([[108]; [121]], Dir 493); ([[108]; [121]; [102]], File 420 (Raw [7])) ] /\
   snd (delete_layer true true spec_sbom_suffixes [[108]] [120] s) = Ok tt.
 Proof. cbn zeta. split; [repeat constructor|]. split; [reflexivity|]. vm_compute. split; reflexivity. Qed.
